@@ -306,7 +306,7 @@ def run_value(case):
     return {"ev": 1, "h": h, "nt": True, "out": "value:%s:%s" % (t, out), "viol": viol, "sample": case if int(h, 16) % 97 == 0 else None}
 
 
-NAMES = ["plain", "select", "table", "order", "index", "group", "MixedCase", "a_1", "x" * 63, "y" * 64, "a/b/c", "where/from", "Select", "values"]
+NAMES = ["sqlite/history", "SQLiteDump", "sqlitex", "sqlite_x", "plain", "select", "table", "order", "index", "group", "MixedCase", "a_1", "x" * 63, "y" * 64, "a/b/c", "where/from", "Select", "values"]
 
 
 def run_names(case):
@@ -331,7 +331,8 @@ def run_names(case):
             w.flush()
             w.close()
         except Exception as e:  # noqa: BLE001
-            viol.append(("C18:names:write-raises:%s:%s" % ("case-collision" if case.get("second") else "single", type(e).__name__), case, {"error": repr(e)[:200]}))
+            cls = "case-collision" if case.get("second") else ("reserved-sqlite_-prefix" if tname.lower().startswith("sqlite_") else "single")
+            viol.append(("C18:names:write-raises:%s:%s" % (cls, type(e).__name__), case, {"error": repr(e)[:200]}))
             return {"ev": 1, "h": h, "nt": True, "out": "names:write-raise", "viol": viol}
         seen = observe(path)
         want_tables = {tname} | ({case["second"][0]} if case.get("second") else set())
